@@ -287,7 +287,7 @@ func c02Files(r *RunCtx) error {
 			}
 		}
 	}
-	list = append(list, fs{5, 41}, fs{40, 100})
+	list = append(list, fs{5, 41}, fs{40, 100}, fs{2, 53}) // (27 chunks: indices whose decimal and hexadecimal spellings differ)
 	if r.Thorough() {
 		for _, n := range []int64{5, 6, 7, 8, 9, 12, 16, 17, 25, 32, 33} {
 			c := int64(1 + p.Intn(12))
@@ -314,6 +314,9 @@ func c02Files(r *RunCtx) error {
 		r.Hist("chunks", fmt.Sprint(n))
 		uf := storagetypes.UnifiedFile{Merkle: f.root, FileSize: x.size}
 		idxs := []int64{p.I64n(n)}
+		if n > 17 {
+			idxs = append(idxs, 10, 16, n-1)
+		}
 		if r.Thorough() {
 			idxs = append(idxs, 0, n-1)
 		}
@@ -687,6 +690,11 @@ func c02History(r *RunCtx, run int) error {
 	if run == 2 {
 		nch = 2 + p.I64n(2)
 	}
+	if run == 3 || run == 4 { // larger files: challenges of 10 and more (two decimal digits, hex letters)
+		chunk, nch = PickOne(p, []int64{3, 8}), 24+p.I64n(17)
+		params.ChunkSize = chunk
+		GovSetStorageParams(e, params)
+	}
 	size := chunk*nch - p.I64n(chunk)
 	if p.Chance(1, 4) {
 		size = chunk * nch // exactly full chunks
@@ -770,8 +778,39 @@ func c02History(r *RunCtx, run int) error {
 	r.Hist("schedule", fmt.Sprintf("mode=%d", mode))
 	lazyJoin := start + p.I64n(2*pw)
 	joined := false
+	// neighbours (every second history): two more files of the same owner, posted half a window later so that their
+	// proof windows are out of phase with the first file's, each held by another honest provider that proves its own
+	// stored challenge at the first height of every window of ITS file.  Nobody here misses an obligation: no reward
+	// block may remove or burn any of the three.
+	type neighbour struct {
+		f      *c02File
+		start  int64
+		keeper sdk.AccAddress
+		joined bool
+	}
+	var neigh []*neighbour
+	neighAt := start + pw/2 + 1
 	for h := start; h <= horizon && !hh.fileGone; h++ {
 		e.At(h, T0.Add(6e9))
+		if run%2 == 1 && h == neighAt {
+			for ni := 0; ni < 2; ni++ {
+				nf, nerr := c02MakeFile(p.Bytes(int(chunk*3)), chunk)
+				if nerr != nil {
+					return nerr
+				}
+				kp := Acct(40 + ni)
+				_ = e.Fund(kp, "ujkl", 100_000_000_000)
+				if res := e.Run(&storagetypes.MsgInitProvider{Creator: kp.String(), Ip: fmt.Sprintf("http://neighbour%d.example", ni), TotalSpace: 1 << 40}); res.Out != OutOk {
+					return fmt.Errorf("C02: InitProvider: %s", res.Err)
+				}
+				if res := e.Run(&storagetypes.MsgPostFile{Creator: owner.String(), Merkle: nf.root, FileSize: chunk * 3, ProofType: 0, MaxProofs: 3, Note: "{}"}); res.Out != OutOk {
+					return fmt.Errorf("C02: PostFile (neighbour): %s", res.Err)
+				}
+				neigh = append(neigh, &neighbour{f: nf, start: h, keeper: kp})
+				hh.log("PostFile (neighbour)", h, map[string]interface{}{"root_hex": hex.EncodeToString(nf.root), "walked_after_the_first_file": string(nf.root) > string(f.root)})
+			}
+			r.Hist("setup", "two neighbour files with out-of-phase windows")
+		}
 		if h == start+2*pw+1 && p.Chance(1, 3) {
 			// a later parameter change must not affect the windows of the stored file
 			np := StorageParams(e)
@@ -804,6 +843,17 @@ func c02History(r *RunCtx, run int) error {
 				r.Hist("lazy", fmt.Sprintf("dropped/burned=%v", postL.Burned > preL.Burned))
 			}
 		}
+		for _, nb := range neigh {
+			if !nb.joined {
+				continue
+			}
+			nf, ok := e.App.StorageKeeper.GetFile(e.Ctx, nb.f.root, owner.String(), nb.start)
+			pv, _ := e.App.StorageKeeper.GetProviders(e.Ctx, nb.keeper.String())
+			if !ok || !nf.ContainsProver(nb.keeper.String()) || (pv.BurnedContracts != "0" && pv.BurnedContracts != "") {
+				c02Finding(r, "C02/reward/honest-prover-removed", fmt.Sprintf("reward block at height %d removed or burned the holder of a neighbouring file, which proved in every window of its file (posted at %d)", h, nb.start), hh.replay())
+				nb.joined = false
+			}
+		}
 		// ---- monitors: the honest prover is neither removed nor burned
 		if joined {
 			if preH.Listed && !postH.Listed {
@@ -821,6 +871,25 @@ func c02History(r *RunCtx, run int) error {
 		if plan[h] {
 			hh.prove(honest.String(), true, 0)
 			joined = true
+		}
+		for _, nb := range neigh { // the neighbours' holders: first height of every window of their own file
+			if (h-nb.start)%pw != 0 && nb.joined {
+				continue
+			}
+			if (h-nb.start)%pw != 0 && h != nb.start {
+				continue
+			}
+			cur := int64(0)
+			if rec, ok := e.App.StorageKeeper.GetProof(e.Ctx, nb.keeper.String(), nb.f.root, owner.String(), nb.start); ok {
+				cur = rec.ChunkToProve
+			}
+			if item, payload, perr := nb.f.honestProof(cur); perr == nil {
+				res := e.Run(&storagetypes.MsgPostProof{Creator: nb.keeper.String(), Item: item, HashList: payload, Merkle: nb.f.root, Owner: owner.String(), Start: nb.start, ToProve: cur})
+				hh.log("PostProof (neighbour's holder)", h, map[string]interface{}{"out": res.Out, "chunk": cur})
+				if res.Out == OutOk {
+					nb.joined = true
+				}
+			}
 		}
 		if h >= lazyJoin && h < horizon {
 			switch {
